@@ -569,6 +569,10 @@ func UnmarshalVectorYAML(value *yaml.Node) (*GeneralizedType, error) {
 	return t, nil
 }
 
+// An upper bound on `dimensions: <count>`, far above what any array library supports,
+// so that a typo cannot make the parser allocate an arbitrary amount of memory.
+const maxArrayDimensionCount = 1024
+
 func UnmarshalArrayYAML(value *yaml.Node) (*GeneralizedType, error) {
 	if value.Kind != yaml.MappingNode {
 		return nil, parseError(value, "an !array must be specified with field `items` and optionally `dimensions`")
@@ -595,6 +599,13 @@ func UnmarshalArrayYAML(value *yaml.Node) (*GeneralizedType, error) {
 
 				if err := v.DecodeWithOptions(&ndims, yaml.DecodeOptions{KnownFields: true}); err != nil {
 					return nil, err
+				}
+
+				if ndims < 0 {
+					return nil, parseError(v, "the number of array dimensions cannot be negative")
+				}
+				if ndims > maxArrayDimensionCount {
+					return nil, parseError(v, "the number of array dimensions cannot be greater than %d", maxArrayDimensionCount)
 				}
 
 				dims := make(ArrayDimensions, ndims)
